@@ -47,7 +47,7 @@ type C17Case struct {
 var c17LitPieces = []string{"\"", "'", "`", "\\", "[", "]", "é", "日本", "a", " ", "[1,2]", "\"x\"", "\\\"", "]]", "[[", "''", "b", "😀", "\\\\", "ARRAY(", ")", ","}
 
 // identifier texts (selector syntax) that resolve against c17 documents; the second list contains a
-// double quote and is only usable in backtick spelling.
+// double quote (spelled \" in the double-quote style).
 var c17Idents = []string{"'wé b'", "it[0].k", "it[1].k", "'k[1]'", "é", "it[0]", "'br]['", "nokey", "'a b'.c"}
 var c17IdentsBT = []string{"'q\"x'", "'say \"[hi]\"'"}
 var c17Aliases = []string{"al [1] é", "a\\b", "\\[x", "v é", "a[0]", "[", "]", "it's", "日本", "x'y'z", "a b", "[[x]", "q]"}
@@ -158,10 +158,9 @@ func genC17(t *rapid.T) any {
 	}
 	identPool := append([]string{}, c17Idents...)
 	aliasPool := append([]string{}, c17Aliases...)
-	if !c.DQ {
-		identPool = append(identPool, c17IdentsBT...)
-		aliasPool = append(aliasPool, c17AliasesBT...)
-	}
+	// names containing a double quote: written as they are between backticks, with \" between double quotes
+	identPool = append(identPool, c17IdentsBT...)
+	aliasPool = append(aliasPool, c17AliasesBT...)
 	c.Items = genSelectItems(t, pt, 3, 3, "sel")
 	for i := range c.Items {
 		if c.Items[i].Alias == "" {
